@@ -366,4 +366,147 @@ theorem tokenize_items (cfg : Cfg) (hty : cfg.types = markdownTypes) (it : Item)
   have := tokLoop_items cfg hty 1 st rest it [] [] false (gas + (2 * rest.length + 13)) hok hr (by omega)
   simpa [tokenizeBlock] using this
 
+/-! ### the token constructors -/
+
+open Mistletoe.Document (mkBlock mkBlocks inl stripNl)
+
+/-- the block token of one block of the fragment -/
+def itemBlock (ln : Nat) : Item → Mistletoe.Block
+  | .para ls => .paragraph (proseInlines (ls.map strip)) ln
+  | .heading lv t => .heading lv [] [.rawText t] ln
+  | .hr c => .thematicBreak [c, c, c] ln
+
+/-- the children of `Document`: the blocks with `BlankLine` tokens between them -/
+def itemBlocks (ln : Nat) : Item → List Item → List Mistletoe.Block
+  | it, [] => [itemBlock ln it]
+  | it, it' :: rest =>
+    itemBlock ln it :: .blankLine (ln + it.lines.length) :: itemBlocks (ln + it.lines.length + 1) it' rest
+
+theorem stripNl_hr (c : Char) (hc : c = '*' ∨ c = '-' ∨ c = '_') : stripNl [c, c, c, '\n'] = [c, c, c] := by
+  rcases hc with rfl | rfl | rfl <;> decide
+
+theorem mkBlock_item (cfg : Document.Cfg) (fn : Footnotes.Table)
+    (ht : ∀ t ∈ cfg.span, inertClass t = true) (hc : cfg.span.count .lineBreak = 1)
+    (it : Item) (hok : it.ok = true) (ln og : Nat) :
+    mkBlock cfg fn (itemEntry ln og it) = .ok (some (itemBlock ln it)) := by
+  cases it with
+  | para q => exact mkBlock_prose cfg fn q ln og ht hc (paraFacts_of q hok).para
+  | heading lv t =>
+    have hk := headOk_of lv t hok
+    have hin : inl cfg fn t = .ok [.rawText t] := tokenizeInner_inert cfg.span fn t ht hk.inert hk.ne
+    simp only [itemEntry, itemBlock, mkBlock, hin]
+  | hr c =>
+    simp only [itemEntry, itemBlock, mkBlock, stripNl_hr c (hrOk_of c hok)]
+
+theorem mkBlocks_itemEntries (cfg : Document.Cfg) (fn : Footnotes.Table)
+    (ht : ∀ t ∈ cfg.span, inertClass t = true) (hc : cfg.span.count .lineBreak = 1) :
+    ∀ (rest : List Item) (it : Item) (ln og : Nat), it.ok = true → (∀ x ∈ rest, x.ok = true) →
+    mkBlocks cfg fn (itemEntries ln og it rest) = .ok (itemBlocks ln it rest)
+  | [], it, ln, og, hok, _ => by
+    simp only [itemEntries, itemBlocks, mkBlocks, mkBlock_item cfg fn ht hc it hok ln og]
+  | it' :: rest, it, ln, og, hok, hr => by
+    have ih := mkBlocks_itemEntries cfg fn ht hc rest it' (ln + it.lines.length + 1) (og + it.lines.length + 1)
+      (hr it' (by simp)) (fun x hx => hr x (List.mem_cons_of_mem _ hx))
+    simp only [itemEntries, itemBlocks, mkBlocks]
+    rw [mkBlock_item cfg fn ht hc it hok ln og]
+    simp only [mkBlock, ih]
+
+/-! ### the renderer -/
+
+/-- the lines the renderer writes for one block -/
+def itemOut : Item → List Str
+  | .para ls => ls.map strip
+  | .heading lv t => [hashes lv ++ ' ' :: t]
+  | .hr c => [[c, c, c]]
+
+def itemsOut : Item → List Item → List Str
+  | it, [] => itemOut it
+  | it, it' :: rest => itemOut it ++ [] :: itemsOut it' rest
+
+theorem renderBlock_item (o : Opts) (it : Item) (hok : it.ok = true) (ln : Nat) :
+    renderBlock o none (itemBlock ln it) = .ok (itemOut it) := by
+  cases it with
+  | para q =>
+    simp only [itemBlock, itemOut, renderBlock, spanToLines_prose _ (strip_lines_ok q (paraFacts_of q hok).prose)]
+  | heading lv t =>
+    have hk := headOk_of lv t hok
+    have h1 : spanToLines [.rawText t] none = .ok [t] := by
+      have := spanToLines_prose [t] (by intro x hx; simp only [List.mem_singleton] at hx; subst hx; exact ⟨hk.ne, headOk_nonl hk⟩)
+      simpa [proseInlines] using this
+    have hne : t.isEmpty = false := by cases t with | nil => exact absurd rfl hk.ne | cons _ _ => rfl
+    simp only [itemBlock, itemOut, renderBlock, firstLine, h1, hne, hashes]
+    simp
+  | hr c => simp only [itemBlock, itemOut, renderBlock]
+
+theorem renderBlocks_items (o : Opts) : ∀ (rest : List Item) (it : Item) (ln : Nat),
+    it.ok = true → (∀ x ∈ rest, x.ok = true) →
+    renderBlocks o none (itemBlocks ln it rest) = .ok (itemsOut it rest)
+  | [], it, ln, hok, _ => by
+    simp only [itemBlocks, itemsOut, renderBlocks, renderBlock_item o it hok ln]
+    simp
+  | it' :: rest, it, ln, hok, hr => by
+    have ih := renderBlocks_items o rest it' (ln + it.lines.length + 1) (hr it' (by simp)) (fun x hx => hr x (List.mem_cons_of_mem _ hx))
+    simp only [itemBlocks, itemsOut, renderBlocks, renderBlock_item o it hok ln, renderBlock, ih]
+    simp
+
+/-! ### the text -/
+
+theorem itemOut_lines (it : Item) (hok : it.ok = true) : (itemOut it).map (· ++ ['\n']) = it.lines := by
+  cases it with
+  | para q =>
+    have f := paraFacts_of q hok
+    exact strip_nl_lines q (fun l hl => ⟨f.prose l hl, f.flush l hl⟩)
+  | heading lv t => simp [itemOut, Item.lines]
+  | hr c => simp [itemOut, Item.lines]
+
+theorem itemsOut_lines : ∀ (rest : List Item) (it : Item), it.ok = true → (∀ x ∈ rest, x.ok = true) →
+    (itemsOut it rest).map (· ++ ['\n']) = itemsLines it rest
+  | [], it, hok, _ => by simp only [itemsOut, itemsLines, itemOut_lines it hok]
+  | it' :: rest, it, hok, hr => by
+    have ih := itemsOut_lines rest it' (hr it' (by simp)) (fun x hx => hr x (List.mem_cons_of_mem _ hx))
+    simp only [itemsOut, itemsLines, List.map_append, List.map_cons, itemOut_lines it hok, ih, List.nil_append]
+
+theorem item_oneLine (it : Item) (hok : it.ok = true) : ∀ l ∈ it.lines, oneLine l = true := by
+  cases it with
+  | para q => exact (paraFacts_of q hok).one
+  | heading lv t =>
+    have hk := headOk_of lv t hok
+    intro l hl
+    simp only [Item.lines, List.mem_singleton] at hl
+    subst hl
+    simp only [oneLine, Bool.and_eq_true, beq_iff_eq, List.all_eq_true, Bool.not_eq_eq_eq_not, Bool.not_true]
+    constructor
+    · simp
+    · intro c hc
+      have e : (hashes lv ++ ' ' :: t ++ ['\n']).dropLast = hashes lv ++ ' ' :: t := by
+        rw [List.dropLast_append_of_ne_nil (by simp)]; simp
+      rw [e] at hc
+      rcases List.mem_append.mp hc with hc | hc
+      · simp only [hashes, List.mem_replicate] at hc
+        rw [hc.2]; decide
+      · rcases List.mem_cons.mp hc with hc | hc
+        · rw [hc]; decide
+        · exact hk.nosep c hc
+  | hr c =>
+    intro l hl
+    simp only [Item.lines, List.mem_singleton] at hl
+    subst hl
+    rcases hrOk_of c hok with rfl | rfl | rfl <;> decide
+
+theorem items_oneLine : ∀ (rest : List Item) (it : Item), it.ok = true → (∀ x ∈ rest, x.ok = true) →
+    ∀ l ∈ itemsLines it rest, oneLine l = true
+  | [], it, hok, _ => by simpa [itemsLines] using item_oneLine it hok
+  | it' :: rest, it, hok, hr => by
+    have ih := items_oneLine rest it' (hr it' (by simp)) (fun x hx => hr x (List.mem_cons_of_mem _ hx))
+    intro l hl
+    simp only [itemsLines, List.mem_append, List.mem_cons] at hl
+    rcases hl with hl | rfl | hl
+    · exact item_oneLine it hok l hl
+    · decide
+    · exact ih l hl
+
+theorem itemsLines_ne (it : Item) (rest : List Item) (hok : it.ok = true) : itemsLines it rest ≠ [] := by
+  have := item_lines_len_pos it hok
+  cases rest <;> simp [itemsLines, this]
+
 end Mistletoe.MdRound
